@@ -215,12 +215,17 @@ func runC16(c *an.Ctx) {
 					}
 				}
 				c.Check(okStored, "C16.c", "walk-reads-only-stored-heights", "the window search asks the store only for heights not above the store's own height (a read above it would wait for a header nobody appends while Start/Head is computing the tail)", find, gc, "", fs)
+				// … and not below the old tail: on a slow chain the estimate taken from the head lies below
+				// it, those heights were pruned, the read fails and with it every later Head()/Start
+				okLow := ff.ProveGE(gc.Block(), ft.Affine(gc.Call.Args[1]), an.Var("Height(p2)", true), 0)
+				c.Check(okLow, "C16.c", "walk-reads-not-below-old-tail", "the window search asks the store only for heights at or above the old tail (what lies below it was pruned: the read fails and wedges Head()/Start)", find, gc, "", fs)
 			}
 			c.Min("C16.c", "store reads of the window search", nRead, 1)
 			c.Min("C16.c", "by-height store reads of renewTail", checkStoreReadsBounded(c, "C16.c", renew), 1)
 			checkTrustingPeriodValidated(c, "C16.f")
 			checkRenewedTailStored(c, "C16.e", renew)
 			checkHeadRequestCapScope(c, "C16.e")
+			checkTailFromVerifiedHead(c, "C16.e")
 			c.Min("C16.c", "upward steps of the window search", nStep, 1)
 			checkWindowSearchWalksDown(c, "C16.c", find, walk)
 			c.Min("C16.c", "estimates feeding the window search", nInit, 1)
